@@ -765,15 +765,15 @@ package engine
 
 //@ func (Match).MarshalJSON [C17]
 //@   nopanic
-//@   atcall Marshal members: (arg0 as map[string]any) == result && (forall k Str :: { has(result, k) } has(result, k) == (k == "filename" || k == "matchNumber" || k == "offset" || k == "line" || k == "column" || k == "value" || k == "variables" || (k == "replacement" && m.Replacement.hasValue)))
-//@   atcall Marshal filename: result["filename"] == box(string, m.Filename)
-//@   atcall Marshal matchNumber: result["matchNumber"] == box(int, m.MatchNumber)
-//@   atcall Marshal offset: result["offset"] == box(ds.Range, m.Offset)
-//@   atcall Marshal line: result["line"] == box(ds.Range, m.Line)
-//@   atcall Marshal column: result["column"] == box(ds.Range, m.Column)
-//@   atcall Marshal value: result["value"] == box(string, m.Value)
-//@   atcall Marshal variables: result["variables"] == box(ValueHashMap, m.Variables)
-//@   atcall Marshal replacement: m.Replacement.hasValue ==> result["replacement"] == box(string, m.Replacement.data)
+//@   atcall Marshal members: arg0 is map[string]any && (forall k Str :: { has(arg0 as map[string]any, k) } has(arg0 as map[string]any, k) == (k == "filename" || k == "matchNumber" || k == "offset" || k == "line" || k == "column" || k == "value" || k == "variables" || (k == "replacement" && m.Replacement.hasValue)))
+//@   atcall Marshal filename: (arg0 as map[string]any)["filename"] == box(string, m.Filename)
+//@   atcall Marshal matchNumber: (arg0 as map[string]any)["matchNumber"] == box(int, m.MatchNumber)
+//@   atcall Marshal offset: (arg0 as map[string]any)["offset"] == box(ds.Range, m.Offset)
+//@   atcall Marshal line: (arg0 as map[string]any)["line"] == box(ds.Range, m.Line)
+//@   atcall Marshal column: (arg0 as map[string]any)["column"] == box(ds.Range, m.Column)
+//@   atcall Marshal value: (arg0 as map[string]any)["value"] == box(string, m.Value)
+//@   atcall Marshal variables: (arg0 as map[string]any)["variables"] == box(ValueHashMap, m.Variables)
+//@   atcall Marshal replacement: m.Replacement.hasValue ==> (arg0 as map[string]any)["replacement"] == box(string, m.Replacement.data)
 //@   ensures result.1 == nil
 //@ func (ValueString).MarshalJSON [C17]
 //@   nopanic
